@@ -78,97 +78,98 @@ def table_histories(chk, gwbin, built):
     rnd = chk.rnd
     n_hist = 14 if chk.tier == "quick" else 150
     hists = []
-    with gw.Site({"iam": True, "versioning": True}, name="c16t") as site:
-        g = site.gateway(gwbin)
-        R = s3c.Client(g.port, "root", "rootsecret")
-        ok = True
-        for acc, role in (("adm", "admin"), ("u1", "userplus"), ("u2", "userplus")):
-            ok &= R.req("PATCH", "/create-user", body=("<Account><Access>%s</Access><Secret>%s-secret</Secret><Role>%s</Role><UserID>0</UserID><GroupID>0</GroupID></Account>" % (acc, acc, role)).encode()).status in (200, 201)
-        chk.require(ok, "c16:setup", "creating the accounts failed")
-        callers = ["root", "adm", "u1", "u2"]
-        def client(name):
-            return s3c.Client(g.port, name, "rootsecret" if name == "root" else name + "-secret")
-        for h in range(n_hist):
-            names = ["h%03d-a" % h, "h%03d.b" % h, "h%03d-c-x" % h, "H%03dBad" % h, "h%03d..x" % h]
-            ops, obs, text = [], [], []
-            docs = {}           # canonical document (json text) -> id
-            live_objs = {n: [] for n in names}
-            nobj = [0]
-            def doc_id(kind, canon):
-                k = json.dumps([kind, canon], sort_keys=True)
-                return docs.setdefault(k, len(docs))
-            def rec(c, t, o):
-                ops.append(c); obs.append(o); text.append(t + " -> " + str(o))
-            for _ in range(rnd.randint(25, 45)):
-                if rnd.random() < 0.04:
-                    g.restart(); R = s3c.Client(g.port, "root", "rootsecret"); text.append("(gateway restarted)") if False else None
-                n = rnd.choice(names[:3] if rnd.random() < 0.9 else names); x = rnd.random()
-                if x < 0.16:
-                    who = rnd.choice(callers); r = client(who).req("PUT", "/" + n)
-                    rec("Create %s %d" % (coq_str(n), callers.index(who)), "create %s by %s" % (n, who), ("ok",) if r.status == 200 else ("err", r.code))
-                elif x < 0.26:
-                    r = R.req("DELETE", "/" + n)
-                    rec("Delete %s" % coq_str(n), "delete-bucket %s" % n, ("ok",) if r.status == 204 else ("err", r.code))
-                    if r.status == 204: live_objs[n] = []
-                elif x < 0.44:
-                    kind = rnd.choice([0, 0, 1, 3])
-                    if kind == 0:
-                        d = rnd.choice(TAGDOCS); body = "<Tagging><TagSet>" + "".join("<Tag><Key>%s</Key><Value>%s</Value></Tag>" % (k, v.replace("&", "&amp;")) for k, v in d.items()) + "</TagSet></Tagging>"
-                        r = R.req("PUT", "/" + n, query={"tagging": ""}, body=body.encode()); canon = d
-                    elif kind == 1:
-                        d = rnd.choice(POLDOCS(n)); r = R.req("PUT", "/" + n, query={"policy": ""}, body=json.dumps(d).encode()); canon = d
-                    else:
-                        d = rnd.choice(VERDOCS); r = R.req("PUT", "/" + n, query={"versioning": ""}, body=("<VersioningConfiguration><Status>%s</Status></VersioningConfiguration>" % d).encode()); canon = d
-                    rec("PutSetting %s %d %d" % (coq_str(n), kind, doc_id(kind, canon)), "put %s of %s := doc#%d" % (["tagging", "policy", "", "versioning"][kind], n, doc_id(kind, canon)),
-                        ("ok",) if r.status in (200, 204) else ("err", r.code))
-                elif x < 0.62:
-                    kind = rnd.choice([0, 0, 1, 3])
-                    r = R.req("GET", "/" + n, query={["tagging", "policy", "", "versioning"][kind]: ""})
-                    if r.status == 200:
-                        if kind == 0: canon = canon_tags(r)
+    for label, cfg, hbase, nh in (("xattr", {"iam": True, "versioning": True}, 0, n_hist), ("sidecar", {"iam": True, "versioning": True, "meta": "sidecar"}, n_hist, max(n_hist // 3, 4))):
+        with gw.Site(cfg, name="c16t") as site:
+            g = site.gateway(gwbin)
+            R = s3c.Client(g.port, "root", "rootsecret")
+            ok = True
+            for acc, role in (("adm", "admin"), ("u1", "userplus"), ("u2", "userplus")):
+                ok &= R.req("PATCH", "/create-user", body=("<Account><Access>%s</Access><Secret>%s-secret</Secret><Role>%s</Role><UserID>0</UserID><GroupID>0</GroupID></Account>" % (acc, acc, role)).encode()).status in (200, 201)
+            chk.require(ok, "c16:setup", "creating the accounts failed")
+            callers = ["root", "adm", "u1", "u2"]
+            def client(name):
+                return s3c.Client(g.port, name, "rootsecret" if name == "root" else name + "-secret")
+            for h in range(hbase, hbase + nh):
+                names = ["h%03d-a" % h, "h%03d.b" % h, "h%03d-c-x" % h, "H%03dBad" % h, "h%03d..x" % h]
+                ops, obs, text = [], [], []
+                docs = {}           # canonical document (json text) -> id
+                live_objs = {n: [] for n in names}
+                nobj = [0]
+                def doc_id(kind, canon):
+                    k = json.dumps([kind, canon], sort_keys=True)
+                    return docs.setdefault(k, len(docs))
+                def rec(c, t, o):
+                    ops.append(c); obs.append(o); text.append(t + " -> " + str(o))
+                for _ in range(rnd.randint(25, 45)):
+                    if rnd.random() < 0.04:
+                        g.restart(); R = s3c.Client(g.port, "root", "rootsecret"); text.append("(gateway restarted)") if False else None
+                    n = rnd.choice(names[:3] if rnd.random() < 0.9 else names); x = rnd.random()
+                    if x < 0.16:
+                        who = rnd.choice(callers); r = client(who).req("PUT", "/" + n)
+                        rec("Create %s %d" % (coq_str(n), callers.index(who)), "create %s by %s" % (n, who), ("ok",) if r.status == 200 else ("err", r.code))
+                    elif x < 0.26:
+                        r = R.req("DELETE", "/" + n)
+                        rec("Delete %s" % coq_str(n), "delete-bucket %s" % n, ("ok",) if r.status == 204 else ("err", r.code))
+                        if r.status == 204: live_objs[n] = []
+                    elif x < 0.44:
+                        kind = rnd.choice([0, 0, 1, 3])
+                        if kind == 0:
+                            d = rnd.choice(TAGDOCS); body = "<Tagging><TagSet>" + "".join("<Tag><Key>%s</Key><Value>%s</Value></Tag>" % (k, v.replace("&", "&amp;")) for k, v in d.items()) + "</TagSet></Tagging>"
+                            r = R.req("PUT", "/" + n, query={"tagging": ""}, body=body.encode()); canon = d
                         elif kind == 1:
-                            try: canon = json.loads(r.body)
-                            except ValueError: canon = "unparseable"
+                            d = rnd.choice(POLDOCS(n)); r = R.req("PUT", "/" + n, query={"policy": ""}, body=json.dumps(d).encode()); canon = d
                         else:
-                            canon = r.xml().findtext("Status") if r.xml() is not None else None
-                        o = ("doc", doc_id(kind, canon) if json.dumps([kind, canon], sort_keys=True) in docs else -1) if canon not in (None, "", {}) else ("err", "NoSuchSetting")
+                            d = rnd.choice(VERDOCS); r = R.req("PUT", "/" + n, query={"versioning": ""}, body=("<VersioningConfiguration><Status>%s</Status></VersioningConfiguration>" % d).encode()); canon = d
+                        rec("PutSetting %s %d %d" % (coq_str(n), kind, doc_id(kind, canon)), "put %s of %s := doc#%d" % (["tagging", "policy", "", "versioning"][kind], n, doc_id(kind, canon)),
+                            ("ok",) if r.status in (200, 204) else ("err", r.code))
+                    elif x < 0.62:
+                        kind = rnd.choice([0, 0, 1, 3])
+                        r = R.req("GET", "/" + n, query={["tagging", "policy", "", "versioning"][kind]: ""})
+                        if r.status == 200:
+                            if kind == 0: canon = canon_tags(r)
+                            elif kind == 1:
+                                try: canon = json.loads(r.body)
+                                except ValueError: canon = "unparseable"
+                            else:
+                                canon = r.xml().findtext("Status") if r.xml() is not None else None
+                            o = ("doc", doc_id(kind, canon) if json.dumps([kind, canon], sort_keys=True) in docs else -1) if canon not in (None, "", {}) else ("err", "NoSuchSetting")
+                        else:
+                            o = ("err", "NoSuchSetting" if r.code in NOSETTING else r.code)
+                        rec("GetSetting %s %d" % (coq_str(n), kind), "get %s of %s" % (["tagging", "policy", "", "versioning"][kind], n), o)
+                    elif x < 0.70:
+                        kind = rnd.choice([0, 1])
+                        r = R.req("DELETE", "/" + n, query={["tagging", "policy"][kind]: ""})
+                        rec("DelSetting %s %d" % (coq_str(n), kind), "delete %s of %s" % (["tagging", "policy"][kind], n), ("ok",) if r.status in (200, 204) else ("err", r.code))
+                    elif x < 0.80:
+                        nobj[0] += 1; key = "obj%d" % nobj[0]
+                        r = R.req("PUT", "/%s/%s" % (n, key), body=b"x")
+                        rec("PutObject %s" % coq_str(n), "put-object %s/%s" % (n, key), ("ok",) if r.status == 200 else ("err", r.code))
+                        if r.status == 200: live_objs[n].append(key)
+                    elif x < 0.88:
+                        if live_objs[n]:
+                            key = live_objs[n].pop()
+                            # (all versions: the bucket may be versioned)
+                            vs = R.req("GET", "/" + n, query={"versions": "", "prefix": key})
+                            r = R.req("DELETE", "/%s/%s" % (n, key))
+                            if vs.status == 200 and vs.xml() is not None:
+                                for el in list(vs.xml().findall("Version")) + list(vs.xml().findall("DeleteMarker")):
+                                    R.req("DELETE", "/%s/%s" % (n, key), query={"versionId": el.findtext("VersionId")})
+                                lv = R.req("GET", "/" + n, query={"versions": "", "prefix": key})
+                                for el in (list(lv.xml().findall("Version")) + list(lv.xml().findall("DeleteMarker"))) if lv.status == 200 and lv.xml() is not None else []:
+                                    R.req("DELETE", "/%s/%s" % (n, key), query={"versionId": el.findtext("VersionId")})
+                            rec("DelObject %s" % coq_str(n), "delete-object %s/%s" % (n, key), ("ok",) if r.status == 204 else ("err", r.code))
                     else:
-                        o = ("err", "NoSuchSetting" if r.code in NOSETTING else r.code)
-                    rec("GetSetting %s %d" % (coq_str(n), kind), "get %s of %s" % (["tagging", "policy", "", "versioning"][kind], n), o)
-                elif x < 0.70:
-                    kind = rnd.choice([0, 1])
-                    r = R.req("DELETE", "/" + n, query={["tagging", "policy"][kind]: ""})
-                    rec("DelSetting %s %d" % (coq_str(n), kind), "delete %s of %s" % (["tagging", "policy"][kind], n), ("ok",) if r.status in (200, 204) else ("err", r.code))
-                elif x < 0.80:
-                    nobj[0] += 1; key = "obj%d" % nobj[0]
-                    r = R.req("PUT", "/%s/%s" % (n, key), body=b"x")
-                    rec("PutObject %s" % coq_str(n), "put-object %s/%s" % (n, key), ("ok",) if r.status == 200 else ("err", r.code))
-                    if r.status == 200: live_objs[n].append(key)
-                elif x < 0.88:
-                    if live_objs[n]:
-                        key = live_objs[n].pop()
-                        # (all versions: the bucket may be versioned)
-                        vs = R.req("GET", "/" + n, query={"versions": "", "prefix": key})
-                        r = R.req("DELETE", "/%s/%s" % (n, key))
-                        if vs.status == 200 and vs.xml() is not None:
-                            for el in list(vs.xml().findall("Version")) + list(vs.xml().findall("DeleteMarker")):
-                                R.req("DELETE", "/%s/%s" % (n, key), query={"versionId": el.findtext("VersionId")})
-                            lv = R.req("GET", "/" + n, query={"versions": "", "prefix": key})
-                            for el in (list(lv.xml().findall("Version")) + list(lv.xml().findall("DeleteMarker"))) if lv.status == 200 and lv.xml() is not None else []:
-                                R.req("DELETE", "/%s/%s" % (n, key), query={"versionId": el.findtext("VersionId")})
-                        rec("DelObject %s" % coq_str(n), "delete-object %s/%s" % (n, key), ("ok",) if r.status == 204 else ("err", r.code))
-                else:
-                    who = rnd.choice(callers); r = client(who).req("GET", "/")
-                    got = [b.findtext("Name") for b in r.xml().iter("Bucket")] if r.status == 200 and r.xml() is not None else None
-                    mine = sorted(names.index(x_) for x_ in (got or []) if x_ in names)
-                    rec("ListBuckets %d %s" % (callers.index(who), coq_bool(who in ("root", "adm"))), "list-buckets by %s" % who, ("names", mine) if got is not None else ("err", r.code))
-                chk.traces += 1
-            hists.append((names, ops, obs, text))
-            chk.case(("table", tuple(ops)), True)
-            for n in names[:3]:
-                import shutil
-                shutil.rmtree(os.path.join(site.root, n), ignore_errors=True); shutil.rmtree(os.path.join(site.verdir, n), ignore_errors=True)
-        chk.tie("gateway still running after the bucket histories", g.alive(), g.log_tail())
+                        who = rnd.choice(callers); r = client(who).req("GET", "/")
+                        got = [b.findtext("Name") for b in r.xml().iter("Bucket")] if r.status == 200 and r.xml() is not None else None
+                        mine = sorted(names.index(x_) for x_ in (got or []) if x_ in names)
+                        rec("ListBuckets %d %s" % (callers.index(who), coq_bool(who in ("root", "adm"))), "list-buckets by %s" % who, ("names", mine) if got is not None else ("err", r.code))
+                    chk.traces += 1
+                hists.append((names, ops, obs, text))
+                chk.case(("table", tuple(ops)), True)
+                for n in names[:3]:
+                    import shutil
+                    shutil.rmtree(os.path.join(site.root, n), ignore_errors=True); shutil.rmtree(os.path.join(site.verdir, n), ignore_errors=True)
+            chk.tie("gateway still running after the bucket histories (%s)" % label, g.alive(), g.log_tail())
     if not built:
         return
     text = ("From Coq Require Import String List ZArith Bool.\nFrom VGW Require Import Base.GoStr Model.Bucket Check.BucketCheck.\nImport ListNotations.\nOpen Scope string_scope.\n")
@@ -283,6 +284,44 @@ def settings_readback(chk, gwbin):
             if r.status == 200 or os.path.exists(os.path.join(site.root, n)):
                 chk.fail("c16:invalid-name-created", "CreateBucket %r answered %d %s; directory exists: %s" % (n, r.status, r.code, os.path.exists(os.path.join(site.root, n))), {"name": n})
         chk.tie("gateway still running after the settings sweep", g.alive(), g.log_tail())
+
+
+def recreate_fresh(chk, gwbin):
+    """a deleted bucket is gone with everything that was set on it: a later bucket of the same name starts from the defaults
+    (both metadata stores: xattrs die with the directory, the sidecar store keeps attributes by name)"""
+    for label, cfg in (("xattr", {"iam": True, "versioning": True}), ("sidecar", {"iam": True, "versioning": True, "meta": "sidecar"})):
+        with gw.Site(cfg, name="c16f") as site:
+            g = site.gateway(gwbin)
+            R = s3c.Client(g.port, "root", "rootsecret")
+            R.req("PATCH", "/create-user", body=b"<Account><Access>u1</Access><Secret>u1-secret</Secret><Role>userplus</Role><UserID>0</UserID><GroupID>0</GroupID></Account>")
+            U1 = s3c.Client(g.port, "u1", "u1-secret")
+            bk = "again-" + label
+            chk.require(U1.req("PUT", "/" + bk).status == 200, "c16:setup", "CreateBucket failed (%s)" % label)
+            sets = [R.req("PUT", "/" + bk, query={"tagging": ""}, body=b"<Tagging><TagSet><Tag><Key>old</Key><Value>life</Value></Tag></TagSet></Tagging>").status,
+                    R.req("PUT", "/" + bk, query={"policy": ""}, body=('{"Statement":[{"Effect":"Allow","Principal":"*","Action":"s3:GetObject","Resource":"arn:aws:s3:::%s/*"}]}' % bk).encode()).status,
+                    R.req("PUT", "/" + bk, query={"versioning": ""}, body=b"<VersioningConfiguration><Status>Enabled</Status></VersioningConfiguration>").status,
+                    R.req("PUT", "/" + bk, query={"ownershipControls": ""}, body=b"<OwnershipControls><Rule><ObjectOwnership>BucketOwnerPreferred</ObjectOwnership></Rule></OwnershipControls>").status,
+                    R.req("PUT", "/" + bk, query={"acl": ""}, headers={"x-amz-acl": "public-read"}).status]
+            d = R.req("DELETE", "/" + bk)
+            c = R.req("PUT", "/" + bk)            # re-created by another account
+            left = []
+            t = R.req("GET", "/" + bk, query={"tagging": ""});
+            if t.status == 200 and b"<Tag>" in (t.body or b""): left.append("tags %r" % t.body[-90:])
+            pl = R.req("GET", "/" + bk, query={"policy": ""})
+            if pl.status == 200: left.append("policy %r" % pl.body[:80])
+            v = R.req("GET", "/" + bk, query={"versioning": ""})
+            if b"Enabled" in (v.body or b""): left.append("versioning Enabled")
+            o = R.req("GET", "/" + bk, query={"ownershipControls": ""})
+            if b"BucketOwnerPreferred" in (o.body or b""): left.append("ownership BucketOwnerPreferred")
+            a = R.req("GET", "/" + bk, query={"acl": ""})
+            if b"AllUsers" in (a.body or b"") or b"<ID>u1</ID>" in (a.body or b""): left.append("ACL of the deleted bucket (%r)" % (a.body or b"")[-160:])
+            chk.case(("recreate", label), True); chk.traces += 1; chk.count("recreate:%s:%s" % (label, "fresh" if not left else "inherited"))
+            if d.status == 204 and c.status == 200 and left:
+                chk.fail("c16:recreated-bucket-inherits:" + label, "[%s] a bucket deleted and created again under the same name still has: %s" % (label, "; ".join(left)),
+                         {"store": label, "set_statuses": sets, "delete": d.status, "create": c.status, "left_over": left})
+            elif d.status != 204 or c.status != 200:
+                chk.tie("[%s] delete and re-create of an empty bucket succeed" % label, False, "%s / %s" % (d, c))
+            chk.tie("gateway still running after the re-create scenario (%s)" % label, g.alive(), g.log_tail())
 
 
 def races(chk, gwbin):
@@ -402,6 +441,7 @@ def run(chk):
         coq.check_assumptions(chk, "Properties.C16", THEOREMS)
     names_part(chk, built)
     table_histories(chk, gwbin, built)
+    recreate_fresh(chk, gwbin)
     settings_readback(chk, gwbin)
     races(chk, gwbin)
 
